@@ -39,7 +39,7 @@ func c04Typed(x *core.Ctx, r *core.Rand, rn *model.Renderer, i int) {
 			return
 		}
 	}
-	items := tsys.Schema(r, &tsys.GenOpts{Descs: true, Hostile: i%8 == 3, Extensions: true, Small: i%3 == 0})
+	items := tsys.Schema(r, &tsys.GenOpts{Descs: true, Hostile: i%8 == 3, Extensions: true, ExtOnly: i%2 == 0, Small: i%3 == 0})
 	if i%8 != 7 {
 		all := append(append([]tsys.Fault{}, tsys.Faults...), tsys.ExtraFaults...)
 		f := all[r.Intn(len(all))]
